@@ -37,6 +37,20 @@ CAPS = {
 }
 
 
+def topo_orders(shape):
+    """All creation orders in which parents precede children (first = pre-order)."""
+    import itertools
+
+    n = len(shape)
+    out = []
+    for perm in itertools.permutations(range(n)):
+        pos = {v: i for i, v in enumerate(perm)}
+        if all(shape[i] < 0 or pos[shape[i]] < pos[i] for i in range(n)):
+            out.append(perm)
+    out.sort(key=lambda p: p != tuple(range(n)))
+    return out
+
+
 def op_cap(op, tier):
     q, t = CAPS.get(op, (3, 4))
     return q if tier == "quick" else t
@@ -67,6 +81,15 @@ def make_shards(tier, ops=None, regimes=("R1", "R3"), typed=True, prefix=""):
                             if not o:
                                 d["no_twin"] = True  # adding an empty tree never succeeds
                         out.append(d)
+    if tier != "quick":
+        # pre-states whose registration order (clone lists, node_id map) differs
+        # from the tree order, as it does after moves
+        for op in ("set_data", "remove", "move", "copy_node", "sort", "filter"):
+            if ops and op not in ops:
+                continue
+            for sh in shapes(3):
+                for order in topo_orders(sh)[1:]:
+                    out.append({"name": "%s%s-R1-%s-o%s" % (prefix, op, shape_str(sh), "".join(map(str, order))), "op": op, "shape": list(sh), "regime": "R1", "order": list(order)})
     if typed:
         NT = 2 if tier == "quick" else 3
         for op in MU.TYPED_OPS:
